@@ -1,6 +1,7 @@
 import Dashu.Driver.Loop
 import Dashu.Model.Int.Bits
 import Dashu.Model.Int.BitsPrim
+import Dashu.Model.Int.Hist
 import Dashu.Model.Int.Cmp
 /-
   Driver of group `bits` (C09, C05).  For every case it runs the mirrored model of the code as it
@@ -109,6 +110,42 @@ def reduce2 (q : QRepr) : QRepr :=
   let k := min (tzWord (Nat.log2 q.num.natAbs + 1) q.num.natAbs) (tzWord (Nat.log2 q.den + 1) q.den)
   ⟨q.num / (2 : Int) ^ k, q.den / 2 ^ k⟩
 
+def parseHOp (t : String) : Option HOp :=
+  let idx (x : String) : Option Nat := x.toNat?
+  match t.splitOn ":" with
+  | ["const", z] => HOp.const <$> parseInt z
+  | ["words", n, ws] => do
+    let l ← if ws.isEmpty then some [] else (ws.splitOn ".").mapM parseHexNat
+    pure (.fromWords (n == "1") l)
+  | ["fu", v] => HOp.fromUnsigned <$> parseHexNat v
+  | ["fs", b, v] => do pure (.fromSigned (← idx b) (← parseInt v))
+  | ["ones", n] => HOp.ones <$> idx n
+  | ["clone", i] => HOp.clone <$> idx i
+  | ["neg", i] => HOp.neg <$> idx i
+  | ["abs", i] => HOp.abs <$> idx i
+  | ["not", i] => HOp.not <$> idx i
+  | ["sqr", i] => HOp.sqr <$> idx i
+  | ["pow", i, e] => do pure (.pow (← idx i) (← idx e))
+  | ["shl", i, n] => do pure (.shl (← idx i) (← idx n))
+  | ["shr", i, n, r] => do pure (.shr (← idx i) (← idx n) (r == "1"))
+  | ["add", i, j, f] => do pure (.add (← idx i) (← idx j) (← idx f))
+  | ["sub", i, j, f] => do pure (.sub (← idx i) (← idx j) (← idx f))
+  | ["mul", i, j] => do pure (.mul (← idx i) (← idx j))
+  | ["div", i, j] => do pure (.div (← idx i) (← idx j))
+  | ["rem", i, j] => do pure (.rem (← idx i) (← idx j))
+  | ["dive", i, j] => do pure (.divEuclid (← idx i) (← idx j))
+  | ["reme", i, j] => do pure (.remEuclid (← idx i) (← idx j) false)
+  | ["and", i, j] => do pure (.and (← idx i) (← idx j))
+  | ["or", i, j] => do pure (.or (← idx i) (← idx j))
+  | ["xor", i, j] => do pure (.xor (← idx i) (← idx j))
+  | ["setbit", i, n] => do pure (.setBit (← idx i) (← idx n))
+  | ["clearbit", i, n] => do pure (.clearBit (← idx i) (← idx n))
+  | ["clearhigh", i, n] => do pure (.clearHigh (← idx i) (← idx n))
+  | ["splitlo", i, n] => do pure (.splitLo (← idx i) (← idx n))
+  | ["splithi", i, n] => do pure (.splitHi (← idx i) (← idx n))
+  | ["nextpow2", i] => HOp.nextPow2 <$> idx i
+  | _ => none
+
 def dispatchCmp : Dispatch := fun W op args =>
   match op, args with
   | "c.routes", [a] => do
@@ -137,6 +174,26 @@ def dispatchCmp : Dispatch := fun W op args =>
     let s := "ok " ++ boolStr (decide (x = y)) ++ " " ++ ordStr (compare x y) ++ " " ++ ordStr (compare y x) ++ " "
       ++ boolStr (decide (x = y))
     pure (chk m s)
+  | "c.hist", [prog] => do
+    let ops ← (prog.splitOn ",").mapM parseHOp
+    let (regs, fin) := hrun W ops []
+    let (svals, sfin) := hrunSpec W ops []
+    let status (stepRes : Option String) : String := if fin then "done" else stepRes.getD "bad"
+    let st := status (match ops[regs.length]? with
+      | some op => (match hstep W regs op with | .panic k => some ("panic:" ++ k.name) | _ => some "bad")
+      | none => none)
+    let sst := if sfin then "done" else (match ops[svals.length]? with
+      | some op => (match hspec W svals op with | .panic k => "panic:" ++ k.name | _ => "bad")
+      | none => "bad")
+    let consistent := regs.all fun a => regs.all fun b =>
+      let same := a.value W == b.value W
+      (a.beq W b == same) && ((a.cmp b == .eq) == same) && (decide (a.hashFeed W = b.hashFeed W) == same)
+        && (b.cmp a == (a.cmp b).swap)
+    let canon := regs.all fun a => decide (SCanon W a)
+    let m := "ok " ++ " ".intercalate (regs.map (sreprToStr W)) ++ (if regs.isEmpty then "" else " ") ++ st ++ " "
+      ++ (if consistent then "consistent" else "BAD") ++ (if canon then "" else " !model-noncanon")
+    let sp := "ok " ++ " ".intercalate (svals.map intToHex) ++ (if svals.isEmpty then "" else " ") ++ sst ++ " consistent"
+    pure (chk m sp)
   | "c.ones", [n] => do
     let k ← parseDecNat n
     let o := reprOnes W codeFx k
@@ -197,6 +254,20 @@ def dispatchCmp : Dispatch := fun W op args =>
     let m := "ok " ++ intToHex y.signif ++ " " ++ decStr y.exp ++ " " ++ boolStr (fbigEq y x) ++ " "
       ++ ordStr (reprCmpSameBase D (exactDigits D) y x none) ++ " " ++ ordStr (reprCmpSameBase D (exactDigits D) x y none)
     pure (chk m ("ok " ++ intToHex x.signif ++ " " ++ decStr x.exp ++ " true eq eq"))
+  | "f.subcmp", [b, _, _, _, _, p, sr, er, sc, ec, pc] => do
+    -- r = a - b is given by the generator (checked against the real code by the harness); it may carry
+    -- p+1 digits — exactly the slack `float_cmp` allows
+    let B ← b.toNat?
+    if B < 2 then none
+    let pr ← parseDecNat p
+    let sg ← parseInt sr; let ex ← parseDec er
+    let x := (FRepr.mk sg ex).normalize B
+    let (y, py) ← parseFloat B sc ec pc
+    let c := reprCmpSameBase B (exactDigits B) x y (some (pr, py))
+    let c' := reprCmpSameBase B (exactDigits B) y x (some (py, pr))
+    let m := "ok " ++ boolStr (fbigEq x y) ++ " " ++ ordStr c ++ " " ++ ordStr c'
+    let sc' := specFCmp B x y
+    pure (chk m ("ok " ++ boolStr (sc' == .eq) ++ " " ++ ordStr sc' ++ " " ++ ordStr (specFCmp B y x)))
   | "f.routes", [sa, ea] => do
     let sg ← parseInt sa; let ex ← parseDec ea
     let x := (FRepr.mk sg ex).normalize 10
